@@ -80,14 +80,22 @@ pub struct VoiceOpts {
     pub win_tight: bool,
     /// node lines of a tree are written out of id order (every node still after the root)
     pub shuffle_nodes: bool,
+    /// root questions of the duration / spectrum / F0 trees are regex-fallback patterns whose
+    /// answer differs between corpus labels (not from the bundled voice; used by C03)
+    pub varying_regex_root: bool,
+    /// the duration tree is a chain with exactly this many leaves (the first data byte is the
+    /// low byte of that count)
+    pub dur_leaves: Option<usize>,
 }
 
-pub const WINDOW_SETS: [&[&[f64]]; 5] = [
+pub const WINDOW_SETS: [&[&[f64]]; 6] = [
     &[&[1.0]],
     &[&[1.0], &[-0.5, 0.0, 0.5]],
     &[&[1.0], &[-0.5, 0.0, 0.5], &[1.0, -2.0, 1.0]],
     &[&[1.0], &[-0.2, -0.1, 0.0, 0.1, 0.2], &[0.285714, -0.142857, -0.285714, -0.142857, 0.285714]],
     &[&[1.0], &[-0.5, 0.0, 0.5], &[0.25, 0.0, -0.5, 0.0, 0.25]],
+    // the widest window is not the last one
+    &[&[1.0], &[-0.2, -0.1, 0.0, 0.1, 0.2], &[1.0, -2.0, 1.0]],
 ];
 
 pub fn window_set(id: usize) -> Vec<Vec<f64>> {
@@ -104,8 +112,8 @@ impl VoiceOpts {
             ln_gain: rng.chance(0.5),
             mcp_len: rng.range(2, 10),
             lpf_len: 2 * rng.range(0, 7) + 1,
-            win_mcp: rng.below(5),
-            win_lf0: rng.below(5),
+            win_mcp: rng.below(6),
+            win_lf0: rng.below(6),
             gv_mcp: rng.chance(0.5),
             gv_lf0: rng.chance(0.5),
             rate: *rng.pick(&[8000usize, 16000, 22050, 44100, 48000]),
@@ -119,6 +127,8 @@ impl VoiceOpts {
             shape: 1.0,
             win_tight: rng.chance(0.4),
             shuffle_nodes: rng.chance(0.4),
+            varying_regex_root: false,
+            dur_leaves: if rng.chance(0.15) { Some(*rng.pick(&[10usize, 10, 13, 32, 9])) } else { None },
         }
     }
     /// small and fast: for interpreters (Miri) and exhaustive histories
@@ -145,6 +155,8 @@ impl VoiceOpts {
             shape: 1.0,
             win_tight: false,
             shuffle_nodes: false,
+            varying_regex_root: false,
+            dur_leaves: None,
         }
     }
     pub fn describe(&self) -> String {
@@ -163,6 +175,18 @@ pub struct QuestionPool {
     pub all: Vec<(String, Vec<String>)>,
     pub regex_fallback: Vec<usize>,
 }
+
+/// Patterns that the fast question parser rejects (they span several label fields), so that
+/// the regex fallback evaluates them, and that are true for some corpus labels and false for
+/// others (checked against the textual wildcard matcher: 73, 361, 28, 94, 177, 1230 of 1456).
+pub const VARYING_REGEX_QUESTIONS: [(&str, &str); 6] = [
+    ("X-Regex-1", "*=a/A:-?+*"),
+    ("X-Regex-2", "*/A:*+1+*/B:*"),
+    ("X-Regex-3", "*^k-*+*=o/*"),
+    ("X-Regex-4", "*/F:?_1#*@1_*"),
+    ("X-Regex-5", "?^*-a+*"),
+    ("X-Regex-6", "*^?-*+?=*"),
+];
 
 impl QuestionPool {
     pub fn from_voice(v: &RefVoice) -> QuestionPool {
@@ -252,6 +276,7 @@ fn gen_model(
     pdf_len: usize,
     max_depth: usize,
     regex_root: bool,
+    extra_root: Option<&[(String, Vec<String>)]>,
     mut fill: impl FnMut(&mut Rng, usize) -> Vec<f32>,
 ) -> ModelSpec {
     let mut used = Vec::new();
@@ -266,6 +291,17 @@ fn gen_model(
             None
         };
         let mut root = gen_tree(rng, pool, depth, &mut nleaf, &mut used, force);
+        if let Some(extra) = extra_root {
+            // put a question with label-dependent regex-fallback answer above the generated tree
+            let (name, _) = &extra[ti % extra.len()];
+            nleaf += 1;
+            let other = NodeSpec::Leaf(nleaf);
+            root = if ti % 2 == 0 {
+                NodeSpec::Node { q: name.clone(), no: Box::new(root), yes: Box::new(other) }
+            } else {
+                NodeSpec::Node { q: name.clone(), no: Box::new(other), yes: Box::new(root) }
+            };
+        }
         // leaf ids are a random permutation of 1..=n (the file need not list them in order)
         let mut perm: Vec<usize> = (1..=nleaf).collect();
         rng.shuffle(&mut perm);
@@ -281,9 +317,13 @@ fn gen_model(
         }
     }
     used.sort();
+    let mut questions: Vec<(String, Vec<String>)> = used.iter().map(|&i| pool.all[i].clone()).collect();
+    if let Some(extra) = extra_root {
+        questions.extend(extra.iter().cloned());
+    }
     ModelSpec {
         leaf_prefix: prefix.to_string(),
-        questions: used.iter().map(|&i| pool.all[i].clone()).collect(),
+        questions,
         trees,
         pdfs,
         pdf_len,
@@ -298,11 +338,36 @@ pub fn generate(opts: &VoiceOpts, pool: &QuestionPool, rng: &mut Rng) -> VoiceSp
     let nstate = opts.nstate;
     let states: Vec<usize> = (2..2 + nstate).collect();
     let dur_scale = opts.dur_scale;
-    let duration = gen_model(rng, pool, "dur_s2_", &[2], nstate * 2, opts.max_depth, false, |rng, _| {
+    let extra: Vec<(String, Vec<String>)> = VARYING_REGEX_QUESTIONS.iter().map(|(n, p)| (n.to_string(), vec![p.to_string()])).collect();
+    let extra_root: Option<&[(String, Vec<String>)]> = if opts.varying_regex_root { Some(&extra) } else { None };
+    let duration = gen_model(rng, pool, "dur_s2_", &[2], nstate * 2, opts.max_depth, false, extra_root, |rng, _| {
         let mut v: Vec<f32> = (0..nstate).map(|_| f32r(rng, 0.3, 9.0) * dur_scale as f32).collect();
         v.extend((0..nstate).map(|_| f32r(rng, 0.2, 12.0)));
         v
     });
+
+    let mut duration = duration;
+    if let Some(n) = opts.dur_leaves {
+        // chain of n-1 questions: leaf k hangs off the "yes" side of question k
+        let mut node = NodeSpec::Leaf(n);
+        let mut used: Vec<(String, Vec<String>)> = Vec::new();
+        for k in (1..n).rev() {
+            let q = rng.pick(&pool.all).clone();
+            node = NodeSpec::Node { q: q.0.clone(), no: Box::new(node), yes: Box::new(NodeSpec::Leaf(k)) };
+            if !used.iter().any(|u| u.0 == q.0) {
+                used.push(q);
+            }
+        }
+        duration.trees[0] = TreeSpec { state: 2, root: node, nleaves: n };
+        duration.questions = used;
+        duration.pdfs[0] = (0..n)
+            .map(|_| {
+                let mut v: Vec<f32> = (0..nstate).map(|_| f32r(rng, 0.3, 9.0) * dur_scale as f32).collect();
+                v.extend((0..nstate).map(|_| f32r(rng, 0.2, 12.0)));
+                v
+            })
+            .collect();
+    }
 
     let mut streams = Vec::new();
 
@@ -322,6 +387,7 @@ pub fn generate(opts: &VoiceOpts, pool: &QuestionPool, rng: &mut Rng) -> VoiceSp
         vlen * nwin * 2,
         opts.max_depth,
         opts.regex_root,
+        extra_root,
         |rng, _| {
             let mut mean = vec![0f32; vlen * nwin];
             let mut vari = vec![0f32; vlen * nwin];
@@ -381,8 +447,10 @@ pub fn generate(opts: &VoiceOpts, pool: &QuestionPool, rng: &mut Rng) -> VoiceSp
         mcp_opts.push(format!("GAMMA={}", stage));
         mcp_opts.push(format!("LN_GAIN={}", ln_gain as u8));
     }
+    // the header may list the options in any order
+    rng.shuffle(&mut mcp_opts);
     let gv_mcp = if opts.gv_mcp && !transparent {
-        Some(gen_model(rng, pool, "gv_mgc_", &[2], vlen * 2, opts.max_depth.min(2), false, |rng, _| {
+        Some(gen_model(rng, pool, "gv_mgc_", &[2], vlen * 2, opts.max_depth.min(2), false, None, |rng, _| {
             let mut v: Vec<f32> = (0..vlen)
                 .map(|_| if stage == 0 { f32r(rng, 0.002, 0.03) } else { f32r(rng, 1e-5, 5e-5) })
                 .collect();
@@ -406,7 +474,7 @@ pub fn generate(opts: &VoiceOpts, pool: &QuestionPool, rng: &mut Rng) -> VoiceSp
     // ---- log F0 (MSD)
     let wins = window_set(opts.win_lf0);
     let nwin = wins.len();
-    let lf0_model = gen_model(rng, pool, "lf0_s", &states, nwin * 2 + 1, opts.max_depth, false, |rng, _| {
+    let lf0_model = gen_model(rng, pool, "lf0_s", &states, nwin * 2 + 1, opts.max_depth, false, extra_root, |rng, _| {
         let mut v = vec![0f32; nwin * 2 + 1];
         let kind = rng.below(10);
         if kind == 0 {
@@ -436,7 +504,7 @@ pub fn generate(opts: &VoiceOpts, pool: &QuestionPool, rng: &mut Rng) -> VoiceSp
         v
     });
     let gv_lf0 = if opts.gv_lf0 {
-        Some(gen_model(rng, pool, "gv_lf0_", &[2], 2, opts.max_depth.min(2), false, |rng, _| {
+        Some(gen_model(rng, pool, "gv_lf0_", &[2], 2, opts.max_depth.min(2), false, extra_root, |rng, _| {
             vec![f32r(rng, 0.005, 0.08), f32r(rng, 1e-5, 1e-3)]
         }))
     } else {
@@ -456,7 +524,7 @@ pub fn generate(opts: &VoiceOpts, pool: &QuestionPool, rng: &mut Rng) -> VoiceSp
     // ---- low-pass (optional third stream)
     if opts.nstreams > 2 {
         let n = opts.lpf_len;
-        let lpf_model = gen_model(rng, pool, "lpf_s", &states, n * 2, opts.max_depth.min(1), false, |rng, _| {
+        let lpf_model = gen_model(rng, pool, "lpf_s", &states, n * 2, opts.max_depth.min(1), false, None, |rng, _| {
             // a low-pass-like symmetric row
             let c = (n - 1) / 2;
             let cutoff = rng.uniform(0.15, 0.9);
@@ -622,7 +690,7 @@ pub fn write(spec: &VoiceSpec) -> Vec<u8> {
 pub fn write_hooked(spec: &VoiceSpec, hook: &mut dyn FnMut(&str, String) -> Vec<u8>) -> Vec<u8> {
     let mut data: Vec<u8> = Vec::new();
     let mut pos: Vec<String> = Vec::new();
-    let mut put = |data: &mut Vec<u8>, bytes: &[u8]| -> String {
+    let put = |data: &mut Vec<u8>, bytes: &[u8]| -> String {
         let a = data.len();
         data.extend_from_slice(bytes);
         format!("{}-{}", a, data.len() - 1)
@@ -853,6 +921,34 @@ pub fn perturb(bytes: &[u8], rng: &mut Rng, strength: f64) -> Vec<u8> {
         }
         if let (Some(g), Some(r)) = (&s.gv, range(&format!("GV_PDF[{}]", s.name))) {
             jitter(&mut out, r, g.trees.len(), g.pdf_len, s.vector_length, false, false);
+        }
+    }
+    out
+}
+
+/// A valid copy of a voice whose GV means (target variances) are multiplied by `factor`.
+pub fn scale_gv_means(bytes: &[u8], factor: f64) -> Vec<u8> {
+    let v = crate::voiceread::read_voice(bytes).expect("scale_gv_means needs a valid voice");
+    let d = bytes.windows(7).position(|w| w == b"[DATA]\n").unwrap() + 7;
+    let p = bytes.windows(11).position(|w| w == b"[POSITION]\n").unwrap();
+    let kv: BTreeMap<String, String> = std::str::from_utf8(&bytes[p + 11..d - 7])
+        .unwrap()
+        .lines()
+        .filter_map(|l| l.split_once(':').map(|(a, b)| (a.to_string(), b.to_string())))
+        .collect();
+    let mut out = bytes.to_vec();
+    for s in &v.streams {
+        let (Some(g), Some(r)) = (&s.gv, kv.get(&format!("GV_PDF[{}]", s.name))) else { continue };
+        let Some((a, b)) = r.split_once('-') else { continue };
+        let (a, b): (usize, usize) = (a.parse().unwrap(), b.parse().unwrap());
+        let mut off = d + a + 4 * g.trees.len();
+        while off + 4 * g.pdf_len <= d + b + 1 {
+            for k in 0..s.vector_length {
+                let o = off + 4 * k;
+                let x = f32::from_le_bytes(out[o..o + 4].try_into().unwrap()) as f64;
+                out[o..o + 4].copy_from_slice(&((x * factor) as f32).to_le_bytes());
+            }
+            off += 4 * g.pdf_len;
         }
     }
     out
